@@ -55,6 +55,21 @@ func gGrpc(rt *rapid.T, p *wProg, pct int) {
 	}
 }
 
+// gLat gives the store a (virtual) latency with probability pct, so that requests issued together
+// interleave at store-call boundaries (wConfig.Lat).
+func gLat(rt *rapid.T, p *wProg, pct int) {
+	if !gPct(rt, pct) {
+		return
+	}
+	n := gInt(rt, 1, 4, "latn")
+	for i := 0; i < n; i++ {
+		p.Cfg.Lat = append(p.Cfg.Lat, gPick(rt, []int{0, 1, 1, 2, 3, 7}, "lat"))
+	}
+	if n == 1 && p.Cfg.Lat[0] == 0 {
+		p.Cfg.Lat[0] = 1
+	}
+}
+
 var gLayouts = [][]int{{0, 1}, {0, 0, 1}, {0, 1, 2}, {0, 0, 1, 2}, {0, 1, 1, 2}, {0, 1, 2, 2}}
 
 // gPrologue creates group g0 (owner: session 0 / user 0), subscribes the others with some
@@ -107,6 +122,7 @@ func c01Gen(rt *rapid.T) wProg {
 	p.Cfg = wConfig{Users: 3, Root: gPct(rt, 30), Media: true}
 	p.Sess = append([]int(nil), gPick(rt, gLayouts, "layout")...)
 	gGrpc(rt, &p, 20)
+	gLat(rt, &p, 35)
 	gPrologue(rt, &p, 20, 85, 60)
 	p.Ops = append(p.Ops, wOp{K: "upload", S: 0}, wOp{K: "upload", S: 0})
 	n := gInt(rt, 2, 14, "nops")
@@ -169,6 +185,24 @@ func c01Gen(rt *rapid.T) wProg {
 				}
 				p.Ops = append(p.Ops, wOp{K: "sub", S: s, T: pt}, wOp{K: "pub", S: s, T: pt})
 			}
+		case x < 63:
+			// everybody leaves, the topic is unloaded (or the server restarts), then several sessions
+			// attach at the same moment - the topic is being loaded when the second request arrives -
+			// and each of them publishes
+			var leave, join, pubs []wOp
+			for s := range p.Sess {
+				leave = append(leave, wOp{K: "leave", S: s, T: "g0"})
+				join = append(join, wOp{K: "sub", S: s, T: "g0"})
+				pubs = append(pubs, wOp{K: "pub", S: s, T: "g0"})
+			}
+			p.Ops = append(p.Ops, leave...)
+			p.Ops = append(p.Ops, wOp{K: gPick(rt, []string{"tick", "tick", "restart"}, "how"), N: 5000})
+			p.Ops = append(p.Ops, wOp{K: "par", Par: join})
+			if gPct(rt, 50) {
+				p.Ops = append(p.Ops, wOp{K: "par", Par: pubs})
+			} else {
+				p.Ops = append(p.Ops, pubs...)
+			}
 		case x < 68:
 			s := gInt(rt, 0, len(p.Sess)-1, "s")
 			op := wOp{K: "sub", S: s, T: gTopicFor(rt, p.Sess[s], false)}
@@ -218,6 +252,7 @@ type c01Obs struct {
 	pubSess    map[int]bool
 	features   map[string]bool
 	afterCrash map[string]bool // routes that must accept the next valid publish
+	anyFault   bool            // a store failure or a crash point was delivered earlier in the history
 }
 
 func newC01Obs() *c01Obs {
@@ -271,6 +306,11 @@ func (o *c01Obs) After(w *wWorld, st *wStep) *kit.Viol {
 	case "restart":
 		o.features["restart"] = true
 	}
+	defer func() {
+		if st.Fired || st.Crashed {
+			o.anyFault = true
+		}
+	}()
 	// 1. acknowledgements
 	type ack struct {
 		route string
@@ -309,6 +349,9 @@ func (o *c01Obs) After(w *wWorld, st *wStep) *kit.Viol {
 			o.pubSess[s.Sess] = true
 		default:
 			t.failed[s.Token] = fmt.Sprint(c.Code)
+			if c.Code >= 500 && !o.anyFault && !st.Fired && len(s.Op.X) == 0 {
+				return kit.V("publish-failed-without-cause", "topic %s answers a valid publish with %d %s although no store failure or crash was injected in this history (a number the topic hands out is already taken in the store)", s.Route, c.Code, c.Text)
+			}
 			if o.afterCrash[s.Route] && c.Code >= 500 && !st.Fired {
 				return kit.V("wedged-after-crash", "after a crash inside a publish, topic %s answers a valid publish with %d %s (store writes in the wrong order leave a stored number the topic re-issues)", s.Route, c.Code, c.Text)
 			}
@@ -412,7 +455,7 @@ func (o *c01Obs) After(w *wWorld, st *wStep) *kit.Viol {
 			continue
 		}
 		for _, f := range st.Frames[s.Sess] {
-			if f.Meta != nil && f.Meta.Id == s.ReqID && f.Meta.Desc != nil && f.Meta.Desc.Acs != nil && strings.Contains(f.Meta.Desc.Acs.Mode, "R") {
+			if f.Meta != nil && f.Meta.Id == s.ReqID && f.Meta.Desc != nil && f.Meta.Desc.Acs != nil && strings.Contains(wEffMode(f.Meta.Desc.Acs), "R") {
 				got := f.Meta.Desc.SeqId
 				if stored, _, _ := mem.A.TopicCounters(s.Route); got != t.last && len(t.failed) > 0 && got == stored && got > t.last {
 					v := kit.V("number-burnt-by-failed-save", "{get desc} on %s shows seq %d, last issued number is %d: a failed save bumped the stored counter and the topic was reloaded from the store", s.Route, got, t.last)
@@ -493,7 +536,7 @@ func c01Exec(t *testing.T, r *kit.Run) func(wProg) kit.Outcome {
 		}
 		sort.Strings(o.Classes)
 		o.NonTrivial = obs.accepted >= 2 && len(obs.pubSess) >= 2 && len(obs.features) > 0
-		if fail != "" {
+		if fail != "" && res.Viol == nil {
 			o.Skip = true
 			o.Classes = append(o.Classes, "bubble-failure")
 			fmt.Println("C01 bubble failure (not judged here):", firstLine(fail))
@@ -502,6 +545,18 @@ func c01Exec(t *testing.T, r *kit.Run) func(wProg) kit.Outcome {
 		o.Viol = res.Viol
 		return o
 	}
+}
+
+// wEffMode is the effective mode an {acs} block reports: the 'mode' member, or - over gRPC, whose
+// schema has no such member - the intersection of want and given.
+func wEffMode(a *MsgAccessMode) string {
+	if a == nil {
+		return ""
+	}
+	if a.Mode != "" || (a.Want == "" && a.Given == "") {
+		return a.Mode
+	}
+	return (wModeOf(a.Want) & wModeOf(a.Given)).String()
 }
 
 func firstLine(s string) string {
